@@ -76,6 +76,32 @@ theorem fact_iam_strictmode : Facts.C20.authStrictModeAssignments = ["config.Str
     value captured when the client was built (clients are built before the HTTP engine, configured last, sets the flag) -/
 theorem fact_redirect_check_reads_global : Facts.C20.checkRedirectReadsGlobalAtCallTime = true := by decide
 
+/-- inventory: the only places outside http/client that build a raw net/http client (CLI client, `status` command,
+    external key-store API, PKI CRL / deny-list download); every other outbound HTTP user goes through the three
+    http/client constructors (whose users are listed). A new raw client anywhere in the node flips this fact. -/
+theorem fact_outbound_inventory :
+    Facts.C20.rawHTTPClientSites = ["core/http_client.go:http.Client{}", "core/status/cmd.go:http.Get",
+      "crypto/storage/external/client.go:http.Client{}", "pki/denylist.go:http.Client{}", "pki/validator.go:http.Client{}"] ∧
+    Facts.C20.strictClientUsers = ["auth/client/iam/openid4vp.go:client.NewWithCache", "discovery/api/server/client/http.go:client.New",
+      "discovery/module.go:client.New", "vcr/openid4vci/identifiers.go:client.NewWithTLSConfig", "vcr/vcr.go:client.NewWithCache",
+      "vcr/vcr.go:client.NewWithTLSConfig", "vcr/vcr.go:client.NewWithTLSConfig", "vdr/didweb/web.go:client.NewWithCache"] := by decide
+
+/-- IAM client: every function that validates an endpoint URL does so with the client's strict flag; the request
+    builders that do not validate themselves are the shared helpers and the credential request (stopped by the HTTP client) -/
+theorem fact_iam_call_sites :
+    Facts.C20.iamURLCheckers = ["OAuthAuthorizationServerMetadata", "ClientMetadata", "OpenIdCredentialIssuerMetadata", "OpenIDConfiguration",
+      "PostError", "PostAuthorizationResponse", "PresentationDefinition", "RequestObjectByGet", "RequestObjectByPost", "AccessToken",
+      "RequestRFC021AccessToken"] ∧
+    Facts.C20.iamRequestBuilders.filter (fun f => !Facts.C20.iamURLCheckers.contains f) =
+      ["VerifiableCredentials", "postFormExpectRedirect", "doGet"] := by decide
+
+/-- the same secret-flag rule guards both configuration loaders (server and CLI client); the dummy means refuses every
+    operation in strict mode; IRMA's production mode is the node's strict mode -/
+theorem fact_misc_sites :
+    Facts.C20.flagSetLoaders = ["core/client_config.go", "core/server_config.go"] ∧
+    Facts.C20.strictCondsDummy = ["VerifyVP: d.InStrictMode", "SigningSessionStatus: d.InStrictMode", "StartSigningSession: d.InStrictMode"] ∧
+    Facts.C20.irmaProductionExprs = ["n.config.StrictMode"] := by decide
+
 /-- engines are configured in this relative order (the model's `start` follows it) -/
 theorem fact_engine_order :
     Facts.C20.engineOrder.filter (fun e => ["storageInstance", "cryptoInstance", "vdrInstance", "networkInstance", "authInstance", "httpServerInstance"].contains e) =
